@@ -943,7 +943,7 @@ pub const ZRTT_RULE: &str = "one execution = a first connection to obtain a sess
 
 pub fn zrtt(seed: u64, out: &mut Outcome) {
     let mut rng = Rng::new(seed ^ 0x02e7);
-    let (tc, _) = random_transport(&mut rng);
+    let (tc, lim_c) = random_transport(&mut rng);
     let (mut ts, _) = random_transport(&mut rng);
     ts.max_concurrent_bidi_streams(VarInt::from_u32(*rng.pick(&[2u32, 100])));
     ts.max_concurrent_uni_streams(VarInt::from_u32(*rng.pick(&[2u32, 100])));
@@ -951,6 +951,12 @@ pub fn zrtt(seed: u64, out: &mut Outcome) {
     if big_windows {
         ts.receive_window(VarInt::from_u32(1_000_000));
         ts.stream_receive_window(VarInt::from_u32(500_000));
+    }
+    // a handshake that loses 7 of its first 8 datagrams backs the PTO off beyond the default idle timeout:
+    // give the connection a long idle timeout so that an idle timeout is never the legitimate outcome
+    let (mut tc, mut ts) = (tc, ts);
+    for t in [&mut tc, &mut ts] {
+        t.max_idle_timeout(Some(IdleTimeout::try_from(Duration::from_secs(600)).unwrap()));
     }
     let (mut sim, ccfg) = default_pair(seed, tc, ts);
     sim.net.latency_ns = *rng.pick(&[1_000_000u64, 10_000_000]);
@@ -979,6 +985,7 @@ pub fn zrtt(seed: u64, out: &mut Outcome) {
     let reject = rng.chance(1, 3);
     if reject {
         let (mut ts2, _) = random_transport(&mut rng);
+        ts2.max_idle_timeout(Some(IdleTimeout::try_from(Duration::from_secs(600)).unwrap()));
         // possibly smaller limits than the client remembers
         if rng.chance(1, 2) {
             ts2.receive_window(VarInt::from_u32(*rng.pick(&[2000u32, 10_000])));
@@ -1010,6 +1017,8 @@ pub fn zrtt(seed: u64, out: &mut Outcome) {
     let (npc, nps) = (1 + rng.below(4) as usize, rng.below(2) as usize);
     w.sides[CLIENT].plans = Workload::random_plans(&mut rng, npc, 60_000);
     w.sides[SERVER].plans = Workload::random_plans(&mut rng, nps, 20_000);
+    let di = |d: quinn_proto::Dir| if d == quinn_proto::Dir::Bi { 0 } else { 1 };
+    w.sides[SERVER].plans.retain(|p| lim_c[di(p.dir)] > 0);
     for s in 0..2 {
         w.sides[s].unordered_permille = *rng.pick(&[0u64, 500]);
     }
@@ -1020,7 +1029,7 @@ pub fn zrtt(seed: u64, out: &mut Outcome) {
         w.start_early(&mut sim, CLIENT, cch);
     }
     let early_written: u64 = w.sides[CLIENT].send.values().map(|s| s.written).sum();
-    let end = sim.run_until(600_000_000_000, 300_000, |sim| {
+    let end = sim.run_until(3_000_000_000_000, 300_000, |sim| {
         if w.ch[SERVER].is_none() {
             if let Some(&ch) = sim.nodes[SERVER].accepted.first() {
                 w.ch[SERVER] = Some(ch);
@@ -1061,12 +1070,17 @@ pub fn zrtt(seed: u64, out: &mut Outcome) {
         out.samples.push(format!("seed {seed}: 0-RTT keys {had_0rtt}, early bytes {early_written}, reject configured {reject}, accepted {accepted}, drop mask {drop_mask:#010b}, plans {:?}, end {end:?} at {} ms", w.sides[CLIENT].plans.iter().map(|p| (p.len, p.chunk)).collect::<Vec<_>>(), sim.now / 1_000_000));
     }
     if std::env::var("VERIF_SIM_VERBOSE").is_ok() {
-        for r in sim.trace.iter().filter(|r| !matches!(r, Rec::Tx { .. })) {
+        let all = std::env::var("VERIF_SIM_VERBOSE").map_or(false, |v| v == "2");
+        for r in sim.trace.iter().filter(|r| all || !matches!(r, Rec::Tx { .. })) {
             eprintln!("{r:?}");
         }
         for node in 0..2 {
             eprintln!("app node {node}: plans {:?} next {} send {:?} recv {:?}", w.sides[node].plans, w.sides[node].next_plan, w.sides[node].send, w.sides[node].recv.iter().map(|(k, v)| (*k, v.bytes, v.fin, v.unordered)).collect::<Vec<_>>());
+            for (ch, nc) in sim.nodes[node].conns.iter().filter(|(_, c)| !c.removed) {
+                eprintln!("node {node} conn {ch} stats {:?}\n   snapshot {:?}", nc.conn.stats(), nc.conn.verif_snapshot());
+            }
         }
+        eprintln!("net {:?} faults {:?}", sim.net, sim.faults);
     }
     for f in sim.fails.drain(..) {
         out.fails.push(format!("{f} seed={seed}"));
